@@ -96,7 +96,7 @@ def tasks(tier):
             out.append({"kind": "styles", "s0": s0, "allow": allow, "engine": "sync"})
     for allow in (False, True):
         for part in range(8):
-            out.append({"kind": "names", "allow": allow, "part": part, "parts": 8, "s0": 0 if quick else None})
+            out.append({"kind": "names", "allow": allow, "part": part, "parts": 8, "s0": None})
     out.append({"kind": "match"})
     out.append({"kind": "listing"})
     return out
@@ -111,9 +111,9 @@ BOUNDS = {
     "every declared event x 8 calling styles (send(name), sm.<e>(), item of sm.events, item of sm.allowed_events, trigger bound with bind_events_to, "
     "MachineMixin method, send(<BoundEvent>), send(<BoundEvent of another instance>)) compared pairwise through a reference style, with symbolic guard values and event argument; "
     "send(<name>) for every name in dir(machine) (~150: methods, properties, dunders, state ids, private attributes) plus 9 non-attributes, from "
-    "state a, with and without allow_event_without_transition; events / allowed_events listing in every state; Transition.match(s) for a "
+    "every state, with and without allow_event_without_transition; events / allowed_events listing in every state; Transition.match(s) for a "
     "symbolic string s against every transition of the template.",
-    "thorough": "send(<name>) from every state.",
+    "thorough": "same (exhausted at quick).",
 }
 OUTSIDE = "send(s) end-to-end for a free symbolic string (getattr realises the name; the finite pool stands in); other machine templates"
 OBLIGATIONS = ["styles-agree", "tna", "fired", "non-event-name-refused", "non-event-name-tolerated", "match-any-string", "allowed-events-listed"]
